@@ -265,8 +265,14 @@ def proof_audit(prop, extra_modules=()):
     path = os.path.join(LEAN, "Pdlv", "Thm", prop + ".lean")
     res = {"ok": False, "obligations": 0, "discharged": 0, "theorems": {}, "problems": [],
            "checker_cmd": "cd lean && lake build %s && lake env lean <audit: #print axioms of every theorem>" % mod}
-    ok, out = build_lean([mod] + list(extra_modules) + ["pdlv"])
+    # further theorem files of the property: Thm/<prop>_*.lean (kept apart when their lemmas build on later modules)
+    import glob
+    more = sorted(glob.glob(os.path.join(LEAN, "Pdlv", "Thm", prop + "_*.lean")))
+    more_mods = ["Pdlv.Thm." + os.path.basename(x)[:-5] for x in more]
+    ok, out = build_lean([mod] + more_mods + list(extra_modules) + ["pdlv"])
     names = theorem_names(path) if os.path.exists(path) else []
+    for x in more:
+        names += theorem_names(x)
     res["obligations"] = len(names)
     if not ok:
         res["problems"].append("lake build %s failed: %s" % (mod, out[-1500:]))
@@ -281,6 +287,8 @@ def proof_audit(prop, extra_modules=()):
     audit = os.path.join(CACHE, "audit", prop + ".lean")
     with open(audit, "w") as f:
         f.write("import %s\n" % mod)
+        for mm in more_mods:
+            f.write("import %s\n" % mm)
         for n in names:
             f.write("#print axioms %s\n" % n)
     with Lock("lake"):
